@@ -123,7 +123,7 @@ func (g *gapi[T]) Set(p unsafe.Pointer, m, v string) error { return g.set((*T)(p
 func (g *gapi[T]) Get(p unsafe.Pointer, m string) (string, error) {
 	return g.get((*T)(p), m)
 }
-func (g *gapi[T]) Vector(p unsafe.Pointer) string                { return g.vector((*T)(p)) }
+func (g *gapi[T]) Vector(p unsafe.Pointer) string               { return g.vector((*T)(p)) }
 func (g *gapi[T]) ScoreNames() []string                         { return g.scoreName }
 func (g *gapi[T]) Score(p unsafe.Pointer, which string) float64 { return g.score((*T)(p), which) }
 func (g *gapi[T]) HasNomen() bool                               { return g.nomen != nil }
